@@ -1,11 +1,11 @@
 use std::{
     cell::RefCell,
-    collections::{BTreeMap, HashSet},
+    collections::HashSet,
     fmt,
     sync::Arc,
 };
 
-use indexmap::IndexSet;
+use indexmap::{IndexMap, IndexSet};
 
 use crate::common::Identifier;
 
@@ -50,7 +50,7 @@ impl<T> MapView for Arc<dyn MapView<Value = T>> {
 }
 
 #[derive(Debug)]
-pub(crate) struct BaseMapView<T>(pub Arc<RefCell<BTreeMap<Identifier, T>>>);
+pub(crate) struct BaseMapView<T>(pub Arc<RefCell<IndexMap<Identifier, T>>>);
 
 impl<T> Clone for BaseMapView<T> {
     fn clone(&self) -> Self {
@@ -81,7 +81,7 @@ impl<T: fmt::Debug + Clone> MapView for BaseMapView<T> {
     }
 
     fn remove(&self, name: Identifier) -> Option<Self::Value> {
-        (*self.0).borrow_mut().remove(&name)
+        (*self.0).borrow_mut().shift_remove(&name)
     }
 
     fn insert(&self, name: Identifier, value: Self::Value) -> Option<Self::Value> {
